@@ -1,8 +1,9 @@
 """C12: keyed arrays are canonical -- sorting orders them and codecs refuse unordered data."""
 import hashlib
 import itertools
+import shutil
 
-from .. import codec
+from .. import codec, common
 from ..common import blit, coq_eval
 from .c01 import PRELUDE, coarse, fmt, impl_des, impl_ser, limited
 
@@ -42,7 +43,12 @@ def key_variants(net, array_type, rng):
 		members = [(name, value if name == array_type.sort_key else member) for name, member in base[2]]
 		return ('S', base[1], members)
 
-	if isinstance(key_field.field_type, str) and codec.kind(net.by_name[key_field.field_type]) == 'Alias':
+	if codec.kind(key_field.field_type) == 'Array':
+		# the key is itself an array (namespace paths): compared element by element, a proper prefix first; the empty key is falsy in Python
+		top = (1 << 64) - 1
+		for value in [[], [], [0], [1], [1, 2], [2], [1, 1], [top], [top, 0], [1 << 56], [0, 0]]:
+			variants.append(with_key(list(value)))
+	elif isinstance(key_field.field_type, str) and codec.kind(net.by_name[key_field.field_type]) == 'Alias':
 		size = net.by_name[key_field.field_type].size
 		top = (1 << (8 * size)) - 1
 		for value in [0, 1, 2, 255, 256, 1 << (8 * size - 8), (1 << (8 * size - 8)) + 1, 0x0100000000000000 % (top + 1), top - 1, top]:
@@ -111,9 +117,18 @@ def signature(kind, name, payload):
 	return f'{kind}:{name}:' + hashlib.sha256(repr(payload).encode('utf8')).hexdigest()[:12]
 
 
+class _Discard(list):
+	def append(self, item):
+		pass
+
+
 def run_array(check, net, host, field, exprs, expected, meta):
 	rng = check.rng
 	array_type = field.field_type
+	element_model = net.by_name[array_type.element_type]
+	if codec.kind(next(f for f in element_model.fields if f.name == array_type.sort_key).field_type) == 'Array':
+		# array-valued sort keys are outside the Layout model (elem_key answers Unsupported): implementation + property oracle only
+		exprs, expected, meta = _Discard(), _Discard(), _Discard()
 	variants = key_variants(net, array_type, rng)
 	generator = codec.Generator(net, rng)
 	host_value = generator.struct(host, 0)
@@ -234,13 +249,108 @@ def run(check, unrecognised):
 		for host, field in keyed_arrays(net):
 			arrays_seen.append(f'{name}.{host.name}.{field.name} key={field.field_type.sort_key}')
 			run_array(check, net, host, field, exprs, expected, meta)
-		models = coq_eval(PRELUDE + net.coq_import, exprs, f'c12{name}', shard=40)
-		for impl_text, model_text, info in zip(expected, models, meta):
-			if coarse(impl_text) != coarse(model_text):
-				check.disagree(f'Layout/Sort-vs-{net.module.__name__}', {'op': info[0], 'class': info[1], 'input': info[2][:600]}, impl_text[:500], model_text[:500])
-		for expr, impl_text in list(zip(exprs, expected))[:2]:
-			check.sample({'model_case': expr[:400], 'implementation': impl_text[:300]})
+			nested_scenario(check, net, host, field)
+		compare_with_model(check, net, exprs, expected, meta, f'c12{name}')
+	run_state_entries(check, arrays_seen)
 	check.extra['keyed_arrays'] = arrays_seen
+
+
+def wrappers_of(net, host):
+	"""(struct, member) pairs whose member can hold a `host` object: declared as the host itself or as the abstract family it belongs to."""
+	accepted = {host.name}
+	if host.factory_type:
+		accepted.add(host.factory_type)
+	found = []
+	for model in net.models:
+		if codec.kind(model) != 'Struct' or model.name == host.name:
+			continue
+		for member in codec.settable_fields(model):
+			if isinstance(member.field_type, str) and member.field_type in accepted:
+				found.append((model, member))
+	return found
+
+
+def nested_scenario(check, net, host, field):
+	"""sort() of an enclosing object reaches the keyed arrays of the objects it holds (what factory autosort relies on), whatever the declared
+	type of the holding member (the concrete struct or its abstract family); the sorted enclosing object then encodes."""
+	rng = check.rng
+	array_type = field.field_type
+	generator = codec.Generator(net, rng)
+	variants = key_variants(net, array_type, rng)
+	for wrapper, member in wrappers_of(net, host):
+		for _ in range(3 if check.tier == 'quick' else 10):
+			entries, keys = [], []
+			for entry in rng.sample(variants, len(variants)):
+				key = codec.sort_key_of(net, array_type, entry)
+				if key not in keys:
+					keys.append(key)
+					entries.append(entry)
+				if len(entries) == 3:
+					break
+			if len(entries) < 2:
+				break
+			ascending_order = sorted(range(len(entries)), key=lambda i: keys[i])
+			permutation = rng.choice([p for p in itertools.permutations(range(len(entries))) if list(p) != ascending_order])
+			ordered = [entries[i] for i in permutation]
+			inner_base = generator.struct(host, 0)
+			inner = ('S', inner_base[1], [(name, ordered if name == field.name else value) for name, value in inner_base[2]])
+			outer_base = generator.struct(wrapper, 0)
+			outer = ('S', outer_base[1], [(name, inner if name == member.name else value) for name, value in outer_base[2]])
+			try:
+				obj = codec.to_object(net, wrapper.name, outer)
+			except codec.Inadmissible:
+				continue
+			check.case(f'{net.name}:{wrapper.name}.{member.name}->{host.name}.{field.name}:nested-sort', codec.render(outer))
+			result = limited(lambda o=obj: (o.sort(), codec.from_object(net, wrapper.name, o))[1])
+			if result[0] != 'ok':
+				continue
+			held = dict(result[1][2])[member.name]
+			after = dict(held[2])[field.name] if isinstance(held, tuple) else None
+			after_keys = [codec.sort_key_of(net, array_type, e) for e in after] if after is not None else None
+			serialized = limited(lambda o=obj: bytes(o.serialize()))
+			if after_keys != sorted(keys) or serialized[0] != 'ok':
+				check.fail(signature('nested-sort', f'{wrapper.name}.{member.name}', codec.render(ordered)),
+					f'{net.name}.{wrapper.name}: sort() leaves {member.name}.{field.name} (a {host.name}) '
+					f'{"in ascending key order" if after_keys == sorted(keys) else "NOT in ascending key order"} and serialize() '
+					f'{"succeeds" if serialized[0] == "ok" else "fails: " + str(serialized[1])[:120]}',
+					{'network': net.name, 'class': wrapper.name, 'member': member.name, 'held': host.name, 'entries': codec.render(ordered)})
+
+
+def compare_with_model(check, net, exprs, expected, meta, tag):
+	models = coq_eval(PRELUDE + net.coq_import, exprs, tag, shard=40)
+	for impl_text, model_text, info in zip(expected, models, meta):
+		if coarse(impl_text) != coarse(model_text):
+			check.disagree(f'Layout/Sort-vs-{net.module.__name__}', {'op': info[0], 'class': info[1], 'input': info[2][:600]}, impl_text[:500], model_text[:500])
+	for expr, impl_text in list(zip(exprs, expected))[:2]:
+		check.sample({'model_case': expr[:400], 'implementation': impl_text[:300]})
+
+
+def run_state_entries(check, arrays_seen):
+	"""The restriction and namespace state entries are not part of the shipped sc module (all_generated.cats leaves the state schemas out):
+	the real generator compiles catbuffer/schemas/symbol/all.cats into a scratch package on every run and the keyed arrays that only
+	exist there go through the same cases."""
+	from . import c15
+	scratch = common.scratch_dir('c12state')
+	try:
+		schema = common.REPO / 'catbuffer/schemas/symbol/all.cats'
+		status, out = c15.run_generator(schema, scratch / 'out_0_a', '0')
+		if status != 0:
+			check.fail('state-codecs-not-generated', f'the generator fails on symbol/all.cats: {out[-400:]}', {'schema': str(schema)})
+			return
+		package = c15.prepare_package(scratch)
+		net = c15.load_generated(scratch, package, 0, schema)
+		net.name = 'symbol-state'
+		shipped = {model.name for model in codec.load_net('symbol').models}
+		exprs, expected, meta = [], [], []
+		for host, field in keyed_arrays(net):
+			if host.name in shipped:
+				continue
+			arrays_seen.append(f'{net.name}.{host.name}.{field.name} key={field.field_type.sort_key}')
+			run_array(check, net, host, field, exprs, expected, meta)
+			nested_scenario(check, net, host, field)
+		compare_with_model(check, net, exprs, expected, meta, 'c12state')
+	finally:
+		shutil.rmtree(scratch, ignore_errors=True)
 
 
 def replay(data):
